@@ -48,6 +48,7 @@ func extractIs(v ssa.Value, call ssa.Value, idx int) bool {
 func runC09(c *eng.Ctx) {
 	p := c.P
 	schemaReadBeforeAFlushIsNotAdopted(c)
+	cachedBucketIsNotRecycled(c)
 	kvStoreFlushSnapshotThenPurge(c)
 
 	// ---- 1. GOC: indexKVStore.createValue -------------------------------------------------------------
